@@ -83,11 +83,13 @@ DecClass(D, r, mode, neverBefore) ==
       d06 == mode = "nxt" /\ D.cls = "updateafterfield"
       d06b == D.cls = "intoverflow"
       d11 == D.cls = "" /\ D.trail /\ ~r.err /\ Len(r.got) = Len(D.out) + 1 /\ k = Len(D.out) + 1 IN
-  Join((IF coll THEN <<"D04_valuelen_eq_repr">> ELSE <<>>)
-       \o (IF d05 THEN <<"D05_sensitive_sticks">> ELSE <<>>)
+  \* most specific failure shape first: the check takes the first listed signature that is still a
+  \* known finding; D04 (any failure at or after a colliding literal) is the least specific
+  Join((IF d05 THEN <<"D05_sensitive_sticks">> ELSE <<>>)
        \o (IF d06 THEN <<"D06_next_update_after_field">> ELSE <<>>)
        \o (IF d06b THEN <<"D06b_int_over_nine_continuations">> ELSE <<>>)
-       \o (IF d11 THEN <<"D11_phantom_field_after_trailing_update">> ELSE <<>>))
+       \o (IF d11 THEN <<"D11_phantom_field_after_trailing_update">> ELSE <<>>)
+       \o (IF coll THEN <<"D04_valuelen_eq_repr">> ELSE <<>>))
 
 \* Oracle self-check against golang.org/x/net (pure decoding).  Two documented deviations of
 \* x/net are tolerated: it lets a size update through after a field when its table is empty,
@@ -196,11 +198,16 @@ EncVerdict(a, D, op) ==
 EncClass(a, D, op, nocomp) ==
   LET F == op.fields
       k == EncK(D, F)
-      d10 == D.cls = "" /\ k = 0 /\ a.nset >= 2 /\ a.minlim < a.st.limit IN
+      d10 == D.cls = "" /\ k = 0 /\ a.nset >= 2 /\ a.minlim < a.st.limit
+      \* table before field j as the ENCODER has it (see EncFieldClasses)
+      Before(j) == IF j = 1 THEN (IF a.nset > 0 THEN Resize(a.st, a.minlim) ELSE a.st) ELSE D.meta[j - 1].after
+      At(j) == EncFieldClasses(Before(j), F[j], nocomp, j = 1, a.nset) IN
   IF d10 THEN "D10_two_size_changes_announce_last"
   ELSE IF k >= 1 /\ k <= Len(F)
-       THEN Join(EncFieldClasses(IF k = 1 THEN (IF a.nset > 0 THEN Resize(a.st, a.minlim) ELSE a.st) ELSE D.meta[k - 1].after,
-                                 F[k], nocomp, k = 1, a.nset))
+       \* the first field that does not decode back, or the one just before it: a mis-encoded field
+       \* can decode to itself by taking octets of its successor (e.g. sensitive accept-charset with an
+       \* empty value: `1f 00` reads as index 15 and the value is taken from the next field)
+       THEN Join(At(k) \o (IF k >= 2 THEN At(k - 1) ELSE <<>>))
        ELSE "none"
 
 EncSelf(D, x) ==
